@@ -193,14 +193,57 @@ def run(prog, tier) -> Result:
                 ta = StrV(None, "amount-text") if akind == "str" else c.num("ta", akind)
                 return [me, a, c.num("um", ukind), b, ta], {}
 
-            def judge(o, akind=akind.split("/")[0]):
+            def judge(o, akind=akind.split("/")[0], ukind=ukind):
                 st = o.state
+
+                def established(diff: RF, op, val):
+                    allowed = {-1, 0, 1}
+                    holds = lambda o_, s_: {"==": s_ == 0, "!=": s_ != 0, "<": s_ < 0, "<=": s_ <= 0, ">": s_ > 0, ">=": s_ >= 0}[o_]
+                    flip = {"==": "==", "!=": "!=", "<": ">", "<=": ">=", ">": "<", ">=": "<="}
+                    k1, k2 = st.canon_diff(diff).key(), st.canon_diff(RF.const(0) - diff).key()
+                    for k, o_, r in st.cmp_facts:
+                        if k == k2 and k2 != k1:
+                            k, o_ = k1, flip[o_]
+                        if k == k1:
+                            allowed = {s_ for s_ in allowed if holds(o_, s_) == r}
+                    return {holds(op, s_) for s_ in allowed} == {val}
                 if o.kind == "raise":
-                    if o.exc.name in ("ValueError", "TypeError"):
-                        return None
                     if getattr(o.exc, "tag", None) == "parse":
                         return None     # text that is no number at all (e.g. '1/0'): rejected, whatever the class
-                    return (exc_sig(o), "contract: ValueError / TypeError for rejected input")
+                    if o.exc.name not in ("ValueError", "TypeError"):
+                        return (exc_sig(o), "contract: ValueError / TypeError for rejected input")
+                    # a rejection must be justified: the path has to have found the input invalid - identical or
+                    # unknown currencies, a multiple that is not integral or below one, an amount that is no number,
+                    # not positive or below 0.000001 - it is not enough that *some* test failed
+                    me_, ua_, um_in_, ub_, ta_in_ = o.args
+                    if getattr(o.exc, "tag", None) is not None:
+                        return None         # raised by a model (unknown currency code, unparsable text, ...)
+                    if isinstance(ua_, UnitV) and isinstance(ub_, UnitV) and st.same_unit(ua_.uid, ub_.uid) is True:
+                        return None
+                    if (isinstance(ua_, StrV) or isinstance(ub_, StrV)) and any(" is " in t and t.endswith("=same") for t in o.trace):
+                        return None         # the currency found for a code turned out to be the other currency
+                    if any(t.endswith(("=ValueError", "=OverflowError", "=TypeError", "=KeyError")) for t in o.trace):
+                        return None         # a conversion / directory look-up found the input unusable
+                    if not str(getattr(o.exc, "where", "")).startswith("ExchangeRate.__init__"):
+                        return None         # raised by a function the constructor hands its input to
+                    reasons = []
+                    um_ = st.norm(um_in_.rf)
+                    reasons.append(RF.const(1) - um_)                                  # multiple < 1
+                    for (nm_, key_), n_ in st.rnd_index.items():
+                        if nm_ == "precision" and st.norm(st.rnd_args[n_]).equals(um_):
+                            reasons.append(RF.atom(("fn", "precision", n_)))           # precision(multiple) > 0
+                    ta_ = st.norm(ta_in_.rf) if isinstance(ta_in_, Num) else RF.atom(("parsed", "amount-text"))
+                    reasons.append(RF.const(Fraction(1, 1000000)) - ta_)               # amount < 0.000001
+                    for diff_ in reasons:
+                        if established(diff_, ">", True):
+                            return None
+                    if established(ta_, "<=", True):
+                        return None         # amount <= 0
+                    if akind == "str" or o.exc.name == "TypeError":
+                        return None         # text amounts / wrong types are rejected by the conversions themselves
+                    return ("input rejected without having been found invalid",
+                            f"{exc_sig(o)}: the facts of the path do not establish identical currencies, multiple < 1, "
+                            f"a non-integral multiple or an amount below 0.000001")
                 me, ua, um_in, ub, ta_in = o.args
                 # currencies given by ISO code are judged by what was stored for them
                 if isinstance(ua, StrV):
@@ -215,17 +258,6 @@ def run(prog, tier) -> Result:
                 um = st.norm(um_in.rf)
                 facts = {(k, op): r for k, op, r in st.cmp_facts}
 
-                def established(diff: RF, op, val):
-                    allowed = {-1, 0, 1}
-                    holds = lambda o_, s_: {"==": s_ == 0, "!=": s_ != 0, "<": s_ < 0, "<=": s_ <= 0, ">": s_ > 0, ">=": s_ >= 0}[o_]
-                    flip = {"==": "==", "!=": "!=", "<": ">", "<=": ">=", ">": "<", ">=": "<="}
-                    k1, k2 = st.canon_diff(diff).key(), st.canon_diff(RF.const(0) - diff).key()
-                    for k, o_, r in st.cmp_facts:
-                        if k == k2 and k2 != k1:
-                            k, o_ = k1, flip[o_]
-                        if k == k1:
-                            allowed = {s_ for s_ in allowed if holds(o_, s_) == r}
-                    return {holds(op, s_) for s_ in allowed} == {val}
                 if not established(um - RF.const(1), ">=", True):
                     return ("multiple < 1 not rejected", "normal exit without establishing multiple >= 1")
                 precs = [a for a in st.rnd_index if a[0] == "precision"]
